@@ -145,7 +145,7 @@ def digest_str(v):
 
 
 def observe_real(root, oc):
-    o = {"oc": oc, "ws": {}, "objs": {}, "recs": {}}
+    o = {"oc": oc, "ws": {}, "objs": {}, "recs": {}, "ino": {}, "wino": {}, "raw": {}}
     xvc = os.path.join(root, ".xvc")
     ino_to_addr = {}
     # cache objects
@@ -159,6 +159,8 @@ def observe_real(root, oc):
                     o["objs"]["?" + os.path.relpath(full, xvc)] = ["?", "?", "?", "?"]
                     continue
                 st = os.lstat(full)
+                o["ino"][addr] = st.st_ino
+                o["raw"][addr] = os.path.relpath(full, xvc)
                 dw = "1" if os.stat(dp).st_mode & 0o200 else "0"
                 if stat.S_ISLNK(st.st_mode):
                     tgt = os.readlink(full)
@@ -181,6 +183,7 @@ def observe_real(root, oc):
             if f in (".gitignore", ".xvcignore"):
                 continue
             st = os.lstat(full)
+            o["wino"][rel] = st.st_ino
             if stat.S_ISLNK(st.st_mode):
                 tgt = os.readlink(full)
                 ta = parse_cache_path(os.path.relpath(tgt, xvc)) if tgt.startswith(xvc) else None
@@ -246,6 +249,7 @@ class RealRun:
         self.parallel = parallel
         self.git = git
         self.log = []
+        self.list_kinds = ()      # item kinds after which `xvc file list` is recorded in the observation
 
     def cfg_args(self):
         a = ["-c", "cache.algorithm=" + ALGOS[self.cfg["algo"]], "-c", "file.recheck.method=" + self.cfg["method"],
@@ -337,9 +341,21 @@ class RealRun:
                 it = (it[0], it[1], order + [p for p in it[2] if p not in order])
             eff.append(it)
             obs.append(observe_real(self.root, oc))
+            if it[0] in self.list_kinds and oc != "Panic":
+                obs[-1]["list"] = self.file_list()
             if oc == "Panic" and stop_on_panic:
                 break
         return obs, eff
+
+    def file_list(self):
+        """`xvc file list`: path -> (recorded digest hex, recorded recheck method letter)"""
+        res = self.repo.xvc(*(self.cfg_args() + ["file", "list", "--format", "{{rcd64}} {{rrm}} {{name}}", "--no-summary"]))
+        out = {}
+        for l in res.out.split("\n"):
+            m = re.match(r"(\S*) (\S*) (.+)$", l)
+            if m:
+                out[m.group(3)] = (m.group(1), m.group(2))
+        return out
 
     def close(self):
         self.repo.cleanup()
@@ -426,7 +442,7 @@ def cas_check(obs):
 
 # ---- history generation -------------------------------------------------------------------------------------
 CONTENTS = [b"", b"hello\n", b"hello\r\n", b"hello", b"he\nllo", b"a\nb\n", b"a\r\nb\r\n", b"\0bin\n", b"x" * 7999 + b"\0", b"x" * 8000 + b"\0",
-            b"x" * 7998 + b"\n\0", b"line1\nline2\n", b"\xff\xfe\n", b"other", b"other\n"]
+            b"x" * 7998 + b"\n\0", b"x" * 8001 + b"\0", b"y" * 7999 + b"\r\n", b"line1\nline2\n", b"\xff\xfe\n", b"other", b"other\n"]
 PATHS = ["a.txt", "b.txt", "d/a.txt", "d/e/c.dat", "noext", "sp ace.txt", "ü.txt", "a.dat", ".hidden", "x.tar.gz"]
 
 
